@@ -543,7 +543,8 @@ SPEC = PropSpec(
                  "dtype converts bytes to text, which is loss. R18.4: per-APID accumulation in stream order with files in "
                  "the order given, one variable per parameter, ValueError on a field-set mismatch. numpy's conversion of "
                  "any particular value is the checker's table, not numpy itself."
-                 ' The generator must be called once per file (files glued into one byte stream are a violation) and a field-set mismatch must be rejected in every order (subset first, superset first, extra field, renamed field).'),
+                 ' The generator must be called once per file (files glued into one byte stream are a violation) and a field-set mismatch must be rejected in every order (subset first, superset first, extra field, renamed field).'
+                 ' Generator options given by the caller reach the generator for every file; files have first bytes (a legal identification word equal to the gzip magic) and gzip.open fails on them.'),
     rule_doc="R18.1 per encoding spelling over all widths; R18.2 per (mode, parameter kind); R18.4 accumulation and mismatch",
     assumptions=["numpy: (u)intN capacity, float16/32 rounding, S/U dtypes strip trailing NULs, dtype=None infers a lossless dtype"],
     mutants=mutants,
